@@ -108,6 +108,7 @@ package federation
 // ---- C14 / C06 (a federated sub-request): the root type is chosen by the kind of the operation; the sub-query is validated
 // against the type it is executed against, and it is the validated query that is executed.
 //@ func ExecuteRequest
+//@   call NewRerunner assume ret0 != nil          // NewRerunner returns the rerunner it allocated
 //@   call PrepareQuery assert arg1 == schema && arg2 == query.SelectionSet && (query.Kind == "mutation" ==> schema == gqlSchema.Mutation) && (query.Kind == "query" ==> schema == gqlSchema.Query)
 //@ func ExecuteRequest$1
 //@   call Execute assert arg2 == schema && arg4 == query
